@@ -1,7 +1,7 @@
 from vv.registry import PROPS, COMMON_ASSUME, py
 
 PROPS["C04"] = dict(
-    parts=[py("vv.exe_c04", quick=dict(cases=1600, procs=8, budget_s=900),
+    parts=[py("vv.exe_c04", quick=dict(cases=800, procs=8, budget_s=900),
               thorough=dict(cases=16000, procs=16, budget_s=3000))],
     rule=("generated pure-XML topology (1-3 molecule types, chains of 1-5 beads of types A/B/C, optional bonds (all / first only), angles, "
           "dihedrals; 2-80 beads), trajectory written by the harness as .gro (8.5f fields) or LAMMPS .dump (1-6 frames, orthorhombic box "
